@@ -308,6 +308,12 @@ fn isomorphic(before: &Document, after: &Document) -> Result<BTreeMap<ObjectId, 
         a: &Object, b: &Object, path: &str, rho: &mut BTreeMap<ObjectId, ObjectId>, inv: &mut BTreeMap<ObjectId, ObjectId>, queue: &mut VecDeque<(ObjectId, ObjectId)>,
     ) -> Result<(), String> {
         match (a, b) {
+            // a reference that resolved to nothing may come back as null (ISO 32000-1 7.3.10);
+            // whether it really was dangling is checked by the caller through `nulled`
+            (Object::Reference(x), Object::Null) => {
+                rho.entry(*x).or_insert((0, 65535));
+                Ok(())
+            }
             (Object::Reference(x), Object::Reference(y)) => {
                 match rho.get(x) {
                     Some(z) if z == y => {}
@@ -376,6 +382,14 @@ fn isomorphic(before: &Document, after: &Document) -> Result<BTreeMap<ObjectId, 
             (Some(_), None) => return Err(format!("object {:?} (renamed {:?}) is missing afterwards", x, y)),
         }
     }
+    // references that became null must have been dangling
+    let nulled: Vec<ObjectId> = rho.iter().filter(|(_, v)| **v == (0, 65535)).map(|(k, _)| *k).collect();
+    for x in nulled {
+        if before.objects.contains_key(&x) {
+            return Err(format!("reference to existing object {:?} became null", x));
+        }
+        rho.remove(&x);
+    }
     Ok(rho)
 }
 
@@ -403,10 +417,12 @@ enum Op {
     Outline(u8),
     DeleteZeroLength,
     SaveReload(bool),
+    /// delete_object on an id that new_object_id handed out and that holds no object
+    DeleteReserved,
 }
 
 fn alphabet() -> Vec<Op> {
-    let mut v = vec![Op::NewId, Op::Add(0), Op::Add(1), Op::Set(0, 0), Op::Set(1, 1)];
+    let mut v = vec![Op::NewId, Op::Add(0), Op::Add(1), Op::Set(0, 0), Op::Set(1, 1), Op::Set(0, 2), Op::DeleteReserved];
     for i in 0..4 {
         v.push(Op::Delete(i));
     }
@@ -639,7 +655,15 @@ fn step(doc: &mut Document, m: &mut Model, op: &Op) -> Result<(), Fail> {
         Op::Set(i, k) => {
             let cand = settable(&before);
             let Some(id) = cand.get(*i as usize).cloned() else { return Ok(()) };
-            let o = if *k == 0 { d(vec![("Replaced", Object::Integer(c as i64))]) } else { arr(vec![Object::Integer(c as i64)]) };
+            let o = match k {
+                0 => d(vec![("Replaced", Object::Integer(c as i64))]),
+                1 => arr(vec![Object::Integer(c as i64)]),
+                _ => {
+                    // a reachable object that refers to an id handed out by new_object_id (no object yet)
+                    let Some(reserved) = m.handed_out.iter().next().cloned() else { return Ok(()) };
+                    d(vec![("Replaced", Object::Integer(c as i64)), ("Reserved", Object::Reference(reserved)), ("Twice", arr(vec![Object::Reference(reserved), Object::Reference(reserved)]))])
+                }
+            };
             guard(util::guard(|| doc.set_object(id, o.clone())))?;
             let fp: BTreeSet<ObjectId> = [id].into_iter().collect();
             if let Some(x) = unchanged_except(&before, doc, &fp, false) {
@@ -653,6 +677,12 @@ fn step(doc: &mut Document, m: &mut Model, op: &Op) -> Result<(), Fail> {
             guard(util::guard(|| doc.delete_object(id)).map(|_| ()))?;
             check_deleted(&before, doc, &[id].into_iter().collect())?;
             *m = Model { handed_out: m.handed_out.clone(), counter: m.counter, ..model_after_delete(&before, m, &[id]) };
+        }
+        Op::DeleteReserved => {
+            let Some(id) = m.handed_out.iter().next().cloned() else { return Ok(()) };
+            guard(util::guard(|| doc.delete_object(id)).map(|_| ()))?;
+            check_deleted(&before, doc, &[id].into_iter().collect())?;
+            m.handed_out.remove(&id);
         }
         Op::RemoveAnnot(i) => {
             let a = annots(&before);
